@@ -39,7 +39,7 @@ import json
 import re
 from concurrent.futures import ThreadPoolExecutor
 
-from lib import (Check, COMMON_TRUSTED, NCPU, REPO, VERIF, coq_str, coq_z, eval_cases, run_py)
+from lib import (Check, COMMON_TRUSTED, NCPU, REPO, VERIF, coq_bool, coq_opt, coq_str, coq_z, eval_cases, run_py)
 from c13_corpus import corpus, FULL_CERT
 from c14_lib import (COQ_HEADER, call_encodable, encodable, env_term, offset_of, pos_of, rtok_term, tcase_term, token_at)
 from lib import known_for
@@ -300,9 +300,10 @@ def render(piece: str, layout: str, indent: str) -> str:
     return piece.replace("\u00a6{", nl + "{").replace("\u00a6", cont).replace("\u2016", cont)
 
 
-def nest_program(chain, layout, before=0):
-    """chain of construct names, outermost first; returns program text with the PLANT in the innermost body,
+def nest_program(chain, layout, before=0, plant=None):
+    """chain of construct names, outermost first; returns program text with the PLANT (or `plant`) in the innermost body,
     preceded (outside class bodies) by the statement BEFORE[before]."""
+    plant = PLANT if plant is None else plant
     if layout == "one-line":
         sep, ind = " ", ""
     elif layout in ("tabs", "broken-tabs"):
@@ -317,7 +318,7 @@ def nest_program(chain, layout, before=0):
     inner_is_class = bool(chain) and chain[-1] == "class"
     if not inner_is_class and chain:
         lines.append(ind * d + BEFORE[before])
-    lines.append(ind * d + PLANT)
+    lines.append(ind * d + plant)
     for d in range(len(chain) - 1, -1, -1):
         tail = render(CONSTRUCTS[chain[d]][1], layout, ind * d)
         lines.append(ind * d + (tail % (d + 1) if "%d" in tail else tail))
@@ -422,6 +423,155 @@ def arg_plants(rng, tier):
                     out.append(dict(name=f"arg:{key}:{v}:{fname}:{cname}", src=src, header=None, pack_format=None, line=line, col=col,
                                     key=key, value=v, form=fname, context=cname, layout=cname, depth=1, kind="arg"))
     return out
+
+
+# ------------------------------------------------------------------ bracket plants (strengthening round 3): the offending
+# token is a BRACKET that spans several lines.  \u27ea ... \u27eb delimit the bracket the diagnostic is expected to be about,
+# \u00a6 marks the places inside it where a line may be broken.  Expected position, by construction: the bracket's first
+# character (FUNC tokens: one column right of the brace; col_length diagnostics: right after its last character).
+BO, BC = "\u27ea", "\u27eb"
+BRACKET_TEMPLATES = [   # (name, where: body | top, statement)
+    # round brackets: argument lists (arity / shape), loop and switch headers, parameter lists, conditions
+    ("round-arity-builtin", "body", 'Text.tellraw' + BO + '(\u00a6@a,\u00a6 "x",\u00a6 "y",\u00a6 "z"\u00a6)' + BC + ';'),
+    ("round-arity-user", "body", 'zg' + BO + '(\u00a61,\u00a6 2\u00a6)' + BC + ';'),
+    ("round-user-list", "body", 'zg' + BO + '(\u00a6[1]\u00a6)' + BC + ';'),
+    ("round-user-kwarg-list", "body", 'zg' + BO + '(\u00a6a=\u00a6[1]\u00a6)' + BC + ';'),
+    ("round-for-two", "body", 'for ' + BO + '(\u00a6$i = 0;\u00a6 $i < 3\u00a6)' + BC + ' { say "a"; }'),
+    ("round-for-four", "body", 'for ' + BO + '(\u00a6$i = 0;\u00a6 $i < 3;\u00a6 $i++;\u00a6 $j++\u00a6)' + BC + ' { say "a"; }'),
+    ("round-for-empty", "body", 'for ' + BO + '(\u00a6)' + BC + ' { say "a"; }'),
+    ("round-switch-empty", "body", 'switch ' + BO + '(\u00a6)' + BC + ' { case 1: say "a"; }'),
+    ("round-if-empty", "body", 'if ' + BO + '(\u00a6)' + BC + ' { say "a"; }'),
+    ("round-params-two", "body", 'Hardcode.repeat(' + BO + '(\u00a6i,\u00a6 j\u00a6)' + BC + ' => { say "a"; }, start=1, stop=2);'),
+    ("round-params-none", "body", 'Hardcode.repeat(' + BO + '(\u00a6)' + BC + ' => { say "a"; }, start=1, stop=2);'),
+    ("round-cond-nested", "body", 'if (' + BO + '(\u00a6zza &&\u00a6 zzb\u00a6)' + BC + ') { say "a"; }'),
+    ("round-cond-operand", "body", 'if ($x == ' + BO + '(\u00a61\u00a6)' + BC + ') { say "a"; }'),
+    ("round-cond-juxtaposed", "body", 'if (' + BO + '(\u00a6$x ==\u00a6 1\u00a6)' + BC + ' ($y == 2)) { say "a"; }'),
+    ("round-else", "body", 'if ($x == 1) { say "a"; } else ' + BO + '(\u00a61\u00a6)' + BC + ' { say "b"; }'),
+    ("round-do", "body", 'do { say "a"; } ' + BO + '(\u00a6$x\u00a6)' + BC + ';'),
+    ("round-body-end", "body", 'if ($x == 1) ' + BO + '(\u00a6 say "a";\u00a6 )' + BC),
+    ("round-function-params", "top", 'function zf' + BO + '(\u00a6a,\u00a6 b\u00a6)' + BC + ' { say "x"; }'),
+    ("round-function-twice", "top", 'function zf() ' + BO + '(\u00a6)' + BC + ' { say "a"; }'),
+    ("round-class", "top", 'class zc ' + BO + '(\u00a6)' + BC + ' { }'),
+    ("round-new-empty", "root", 'new advancements' + BO + '(\u00a6)' + BC + ' { "a": 1 }'),
+    ("round-new-two", "root", 'new advancements' + BO + '(\u00a6a.b,\u00a6 c\u00a6)' + BC + ' { "a": 1 }'),
+    # square brackets: a list where something else is expected
+    ("square-message", "body", 'Text.tellraw(@a, ' + BO + '[\u00a61,\u00a6 2\u00a6]' + BC + ');'),
+    ("square-function", "body", 'Hardcode.repeat(' + BO + '[\u00a61,\u00a62\u00a6]' + BC + ', start=1, stop=2);'),
+    ("square-kwarg", "body", 'Hardcode.repeat((i) => { say "i"; }, start=' + BO + '[\u00a61\u00a6]' + BC + ', stop=2);'),
+    ("square-unknown-kwarg", "body", 'Hardcode.repeatLists((x) => { say "x"; }, strings=' + BO + '[\u00a6["a"],\u00a6 ["b", "c"]\u00a6]' + BC + ');'),
+    ("square-cast", "body", '::a = (int) ' + BO + '[\u00a61\u00a6]' + BC + ';'),
+    ("square-slice", "body", '::a' + BO + '[\u00a61:2:3\u00a6]' + BC + ' = 1;'),
+    ("square-while", "body", 'do { say "a"; } while ' + BO + '[\u00a61\u00a6]' + BC + ';'),
+    ("square-body-end", "body", 'while ($x == 1) ' + BO + '[\u00a6 say "a";\u00a6 ]' + BC),
+    ("square-schedule-end", "body", 'schedule 5t ' + BO + '[\u00a6 say "a";\u00a6 ]' + BC),
+    ("square-function-body", "top", 'function zf() ' + BO + '[\u00a6 say "a";\u00a6 ]' + BC),
+    ("square-class-end", "top", 'class zc ' + BO + '[\u00a6 ]' + BC),
+    # curly brackets: empty bodies, a JS object where something else is expected
+    ("curly-switch-empty", "body", 'switch ($x) ' + BO + '{\u00a6}' + BC),
+    ("curly-message", "body", 'Text.tellraw(@a, ' + BO + '{\u00a6a: 1\u00a6}' + BC + ');'),
+    ("curly-message-empty", "body", 'Text.tellraw(@a, ' + BO + '{\u00a6}' + BC + ');'),
+    ("curly-kwarg", "body", 'Hardcode.repeat((i) => { say "i"; }, start=' + BO + '{\u00a6a:1\u00a6}' + BC + ', stop=2);'),
+    ("curly-strings-empty", "body", 'Hardcode.repeatList((x, n) => { say "x"; }, strings=' + BO + '{\u00a6}' + BC + ');'),
+    ("curly-after-kwarg", "body", 'zg(a="1", ' + BO + '{\u00a6b:2\u00a6}' + BC + ');'),
+    ("curly-with-second", "body", 'zg() with {a:1} ' + BO + '{\u00a6b:2\u00a6}' + BC + ';'),
+    ("curly-after-call", "body", 'Text.tellraw(@a, "x") ' + BO + '{\u00a6a:1\u00a6}' + BC + ';'),
+    ("curly-put", "body", 'JMC.put(' + BO + '{\u00a6a:1\u00a6}' + BC + ');'),
+    ("curly-function-no-params", "top", 'function zf ' + BO + '{\u00a6 say "a";\u00a6 }' + BC),
+    # arrow-function bodies (FUNC tokens)
+    ("func-message", "body", 'Text.tellraw(@a, () => ' + BO + '{\u00a6 say "x";\u00a6 }' + BC + ');'),
+    ("func-kwarg", "body", 'Hardcode.repeat((i) => { say "i"; }, start=() => ' + BO + '{\u00a6 say "z";\u00a6 }' + BC + ', stop=2);'),
+]
+# a multi-line bracket INSIDE a multi-line bracket (the break marks outside the marked bracket belong to the enclosing one)
+BRACKET_TEMPLATES += [
+    ("nested-square-in-round", "body", 'Text.tellraw(\u00a6@a,\u00a6 ' + BO + '[\u00a61,\u00a6 2\u00a6]' + BC + '\u00a6);'),
+    ("nested-curly-in-round", "body", 'Particle.line(\u00a6"flame",\u00a6 distance=' + BO + '{\u00a6a:1\u00a6}' + BC + ',\u00a6 spread=2\u00a6);'),
+    ("nested-func-in-round", "body", 'Text.tellraw(\u00a6@a,\u00a6 () =>\u00a6 ' + BO + '{\u00a6 say "x";\u00a6 }' + BC + '\u00a6);'),
+    ("nested-params-in-round", "body", 'Hardcode.repeat(\u00a6' + BO + '(\u00a6i,\u00a6 j\u00a6)' + BC + ' => { say "a"; },\u00a6 start=1,\u00a6 stop=2\u00a6);'),
+    ("nested-round-in-cond", "body", 'if (\u00a6$y == 2 &&\u00a6 ' + BO + '(\u00a6zza &&\u00a6 zzb\u00a6)' + BC + '\u00a6) { say "a"; }'),
+    ("nested-for-in-arrow", "body", 'Raycast.simple(\u00a6onHit=() => {\u00a6 for ' + BO + '(\u00a6$i = 0;\u00a6 $i < 3\u00a6)' + BC
+     + ' { say "a"; }\u00a6 },\u00a6 interval=0.1,\u00a6 maxIter=5\u00a6);'),
+    ("nested-list-in-list", "body", 'Text.tellraw(@a, [\u00a6"a",\u00a6 ' + BO + '[\u00a61,\u00a6 zzq\u00a6]' + BC + '\u00a6]);'),
+    ("nested-switch-in-case", "body", 'switch ($s) {\u00a6 case 1:\u00a6 switch ($t) ' + BO + '{\u00a6}' + BC + '\u00a6 }'),
+]
+BRACKET_LAYOUTS = ("flat", "lines", "tabs", "open", "close", "crlf", "gap")
+BRACKET_CHAINS = {
+    "body": [["function"], ["function", "if"], ["class", "function", "arrow"], ["function", "while", "execute"], ["function", "elif", "do"],
+             ["function", "for", "switch"], ["decorated", "ifelse"], ["lazy", "if"], ["function", "arrow2", "returnrun"], ["function", "expand"]],
+    "top": [[], ["class"], ["class", "class"]],
+    "root": [[]],
+}
+
+
+def render_bracket(stmt: str, inner: str, indent: str) -> str:
+    """the statement with the break marks inside the marked bracket resolved for the inner layout"""
+    n = stmt.count("\u00a6")
+    if inner == "flat":
+        return stmt.replace("\u00a6", "")
+    nl = "\r\n" if inner == "crlf" else "\n"
+    step = "\t" if inner == "tabs" else "  "
+    parts = stmt.split("\u00a6")
+    out = [parts[0]]
+    for k in range(1, len(parts)):
+        first, last = (k == 1), (k == n)
+        if inner == "open" and not first:
+            brk = ""
+        elif inner == "close" and not last:
+            brk = ""
+        else:
+            brk = nl + indent + ("" if last else step)
+            if inner == "gap" and first:
+                brk = nl + nl + indent + step + "// inside the bracket" + nl + indent + ("" if last else step)
+        out.append(brk + (parts[k].lstrip(" ") if brk else parts[k]))
+    return "".join(out)
+
+
+def bracket_plants(rng, tier):
+    out = []
+    k = 0
+    for name, where, stmt in BRACKET_TEMPLATES:
+        chains = BRACKET_CHAINS[where]
+        for inner in BRACKET_LAYOUTS:
+            if tier == "quick":
+                picks = [chains[(k + i) % len(chains)] for i in range(min(2, len(chains)))]
+            else:
+                picks = chains
+            k += 1
+            for chain in picks:
+                outers = (rng.choice(BASE_LAYOUTS), rng.choice(BRACE_LAYOUTS)) if tier == "quick" else \
+                    (rng.choice(BASE_LAYOUTS),) + tuple(rng.sample(BRACE_LAYOUTS, 2))
+                for outer in outers:
+                    if not chain and outer in BRACE_LAYOUTS:
+                        continue
+                    ind = "" if outer == "one-line" else ("\t" if outer in ("tabs", "broken-tabs") else "    ")
+                    plant = render_bracket(stmt, inner, ind * len(chain))
+                    inner_is_class = bool(chain) and chain[-1] == "class"
+                    src = nest_program(chain, outer, 0, plant=plant)
+                    if where == "body":
+                        src += "\nfunction zg() { say \"g\"; }"
+                    o, c = src.index(BO), src.index(BC) - 1
+                    src = src.replace(BO, "").replace(BC, "")
+                    text = src[o:c]
+                    if src.count(text) != 1:
+                        continue
+                    line, col = pos_of(src, o)
+                    eline, ecol = pos_of(src, c)
+                    out.append(dict(name=f"bracket:{name}:{inner}:{'>'.join(chain)}:{outer}", template=name, inner=inner, layout=outer,
+                                    src=src, header=None, pack_format=None, line=line, col=col, end=[eline, ecol], bracket=text,
+                                    depth=len(chain), kind="bracket", multiline=("\n" in text)))
+    return out
+
+
+SUBSTITUTES = re.compile(r"@lazy|Hardcode\.|JMC\.python|#define|#bind|#enum")
+HEAD_RE = re.compile(r"^In .*?:(\d+)(?::(\d+))?$")
+TAIL_RE = re.compile(r"^ at line (\d+)(?: col (\d+))?\.$")
+
+
+def cited_by(e):
+    """(header (line, col|None) | None, sentence (line, col|None) | None) written by one error_msg call"""
+    h = HEAD_RE.match(e.get("head") or "")
+    t = TAIL_RE.match(e.get("tail") or "")
+    conv = lambda m: (int(m.group(1)), int(m.group(2)) if m.group(2) else None) if m else None
+    return conv(h), conv(t)
 
 
 # ------------------------------------------------------------------ expression plants: the needle as an operand of a
@@ -765,6 +915,7 @@ def main(tier: str) -> int:
                                line=line, col=col, depth=g["depth"], kind="nest"))
     plant_jobs += expr_plants()
     plant_jobs += arg_plants(rng, tier)
+    plant_jobs += bracket_plants(rng, tier)
     pres = run_jobs([dict(src=j["src"], header=j["header"], cert=FULL_CERT, pack_format=j["pack_format"], timeout=10)
                      for j in plant_jobs], chunk=100)
     # (B)/(B2)/(A2) on what was tokenised before the diagnostic of the plant
@@ -788,13 +939,54 @@ def main(tier: str) -> int:
     by_depth, by_layout, by_construct_brace = {}, {}, {}
     model_cases = []
     reportedC = 0
-    n_stmt_plants = sum(1 for j in plant_jobs if j["kind"] != "arg")
+    n_stmt_plants = sum(1 for j in plant_jobs if j["kind"] not in ("arg", "bracket"))
     n_arg = n_arg_about = 0
     arg_by_form, arg_by_ctx = {}, {}
     known_c14 = list(known_for(PROP))
     if False and PROPOSED.exists():  # merged into known_findings.json
         known_c14 += [f for f in json.loads(PROPOSED.read_text()) if f.get("property") == PROP and f["id"] not in {k["id"] for k in known_c14}]
+    br = dict(total=0, multiline=0, about_bracket=0, about_multiline_bracket=0, at_end=0, other_token=0, compiled=0, no_diagnostic=0)
+    br_by_template, br_by_inner, br_by_type, br_by_depth = {}, {}, {}, {}
     for j, r in zip(plant_jobs, pres):
+        if j["kind"] == "bracket":
+            # (C3) the diagnostic's token is the planted bracket (its text occurs once in the file): the position written in the
+            # header and in the sentence must be the bracket's first character (FUNC: one right; col_length: right after it)
+            br["total"] += 1
+            br["multiline"] += j["multiline"]
+            if r["ok"]:
+                br["compiled"] += 1
+                continue
+            ems = [e for e in r.get("error_msgs", []) if e.get("token")]
+            if not r["jmc"] or not ems:
+                br["no_diagnostic"] += 1
+                continue
+            e = ems[-1]
+            ty, tl_, tc_, tstr, _q = e["token"]
+            if tstr != j["bracket"] or not (ty.startswith("PAREN") or ty == "FUNC"):
+                br["other_token"] += 1
+                continue
+            br["about_bracket"] += 1
+            if j["multiline"]:
+                br["about_multiline_bracket"] += 1
+                br_by_template[j["template"]] = br_by_template.get(j["template"], 0) + 1
+                br_by_inner[j["inner"]] = br_by_inner.get(j["inner"], 0) + 1
+                br_by_type[ty] = br_by_type.get(ty, 0) + 1
+                br_by_depth[j["depth"]] = br_by_depth.get(j["depth"], 0) + 1
+            if e["cl"]:
+                br["at_end"] += 1
+                exp = tuple(j["end"])
+            else:
+                exp = (j["line"], j["col"] + (1 if ty == "FUNC" else 0))
+            hdr, snt = cited_by(e)
+            whole = tuple(r["cited"]) if r.get("cited") else None
+            got = dict(header=hdr, sentence=snt, message_of_the_compile=whole)
+            if (snt != exp or (hdr is not None and hdr != exp) or whole != exp) and reportedC < 5:
+                reportedC += 1
+                ck.violation(dict(kind="diagnostic-cites-wrong-position", check="C3", program=j["src"], header=None, layout=j["layout"],
+                                  depth=j["depth"], bracket=dict(template=j["template"], layout=j["inner"], text=j["bracket"], token_type=ty,
+                                                                 col_length=e["cl"]),
+                                  expected=dict(line=exp[0], col=exp[1]), actual=got, message=r["msg"][:600]))
+            continue
         if r["ok"]:
             n_compiled += 1
             continue
@@ -879,6 +1071,84 @@ def main(tier: str) -> int:
                                "the generator no longer exercises the property"),
                      no_input=True)
 
+    n_templates_ok = sum(1 for t in BRACKET_TEMPLATES if br_by_template.get(t[0], 0) >= 3)
+    types_ok = all(br_by_type.get(t, 0) >= 10 for t in ("PAREN_ROUND", "PAREN_SQUARE", "PAREN_CURLY", "FUNC"))
+    if n_templates_ok < 0.7 * len(BRACKET_TEMPLATES) or not types_ok or len(br_by_inner) < len(BRACKET_LAYOUTS) - 1 or br["at_end"] < 10:
+        ck.violation(dict(kind="plants-ineffective", bracket_plants=br, templates_with_3_multiline_plants=n_templates_ok,
+                          templates=len(BRACKET_TEMPLATES), by_token_type=br_by_type, by_inner_layout=br_by_inner,
+                          note="too few diagnostics are raised about the planted multi-line bracket: positions cited for tokens that "
+                               "span several lines are no longer exercised"), no_input=True)
+
+    # ---- (E) every call of exception.error_msg recorded in any run: header == sentence == Model.TokCite.cite col_length token
+    ecases, seen_e = [], set()
+    n_err_calls = n_err_none = n_err_multiline = n_err_unparsed = 0
+    reportedE = reportedE3 = n_err_unique = 0
+    for p_, r in list(zip(progs, res)) + [(dict(name="mutant", layout="-", src=s_, header=None), r) for s_, r in zip(muts, mres)] + \
+            list(zip(plant_jobs, pres)):
+        for e in r.get("error_msgs", []):
+            n_err_calls += 1
+            hdr, snt = cited_by(e)
+            if snt is None:
+                n_err_unparsed += 1
+                if reportedE < 3:
+                    reportedE += 1
+                    ck.violation(dict(kind="diagnostic-sentence-not-found", check="E", program=p_["src"], header=p_.get("header"),
+                                      head=e.get("head"), tail=e.get("tail"),
+                                      expected="error_msg writes `<message> at line L[ col C].` after the header line"))
+                continue
+            if e["token"] is None:
+                n_err_none += 1
+                exp = (e["tl"], None if e["el"] else e["tc"])
+                if (snt != exp or (hdr is not None and hdr != exp)) and reportedE < 3:
+                    reportedE += 1
+                    ck.violation(dict(kind="diagnostic-cites-wrong-position", check="E", program=p_["src"], header=p_.get("header"),
+                                      expected=dict(line=exp[0], col=exp[1], what="the tokenizer's current position (no token given)"),
+                                      actual=dict(header=hdr, sentence=snt)))
+                continue
+            tok = e["token"]
+            # (E3) the token a diagnostic is about sits at its own text: when the program has no text substitution (@lazy, Hardcode.*,
+            # JMC.python, header macros) and the token's text occurs exactly ONCE in the file, that occurrence is where it must be cited
+            fs_ = r["file_strings"][e["fs"]] if e.get("fs") is not None and e["fs"] < len(r["file_strings"]) else None
+            if fs_ is not None and not e["macros"] and p_.get("header") is None and not SUBSTITUTES.search(fs_) and tok[1] >= 1 \
+                    and tok[0] not in ("STRING",) and len(tok[3]) >= 2 and fs_.count(tok[3]) == 1:
+                n_err_unique += 1
+                o_ = fs_.index(tok[3]) + (1 if tok[0] == "FUNC" else 0)
+                if pos_of(fs_, o_) != (tok[1], tok[2]) and reportedE3 < 3:
+                    reportedE3 += 1
+                    ck.violation(dict(kind="diagnostic-cites-wrong-position", check="E3", program=p_["src"], header=None,
+                                      token=tok[:4], message=e["message"],
+                                      expected=dict(zip(("line", "col"), pos_of(fs_, o_)), what="the only occurrence of the token's text in the file"),
+                                      actual=dict(line=tok[1], col=tok[2])))
+            if not encodable(tok[3]) or len(tok[3]) > 4000:
+                continue
+            ml = "\n" in tok[3]
+            key = (tuple(tok), e["cl"], e["el"], hdr, snt)
+            if key in seen_e:
+                continue
+            seen_e.add(key)
+            n_err_multiline += ml
+            ecases.append((p_, e, hdr if hdr is not None else snt, snt, ml))
+    if tier == "quick" and len(ecases) > 1500:
+        keep = [c for c in ecases if c[4]]
+        rest = [c for c in ecases if not c[4]]
+        ecases = keep[:1100] + rng.sample(rest, min(len(rest), 1500 - min(len(keep), 1100)))
+    oz = lambda x: coq_opt(coq_z(x) if x is not None else None)
+    eterms = [f"EC ({rtok_term(e['token'])}) {coq_bool(e['cl'])} {coq_bool(e['el'])} {coq_z(snt[0])} {oz(snt[1])} {coq_z(hdr[0])} {oz(hdr[1])}"
+              for _, e, hdr, snt, _ in ecases]
+    ebad, eerrs = eval_cases(PROP, COQ_HEADER + env_term([]), eterms, per_file=300, checker="emismatches E", prefix="cites")
+    for e_ in eerrs:
+        ck.violation(dict(kind="correspondence-file-failed", log=e_), no_input=True)
+    for i in ebad[:3]:
+        p_, e, hdr, snt, ml = ecases[i]
+        ck.violation(dict(kind="diagnostic-cites-wrong-position", check="E", program=p_["src"], header=p_.get("header"),
+                          token=e["token"][:4], col_length=e["cl"], entire_line=e["el"], message=e["message"],
+                          expected="header `In file:L:C` and sentence `at line L col C.` = the token's own (line, col) "
+                                   "(col_length: the position right after the token) - Model.TokCite.cite, theorem C14_error_start",
+                          actual=dict(header=hdr, sentence=snt, token_position=e["token"][1:3])))
+    if n_err_multiline < 200:
+        ck.violation(dict(kind="corpus-ineffective", error_msg_calls_about_multiline_tokens=n_err_multiline,
+                          note="fewer than 200 distinct diagnostics about a token that spans several lines were recorded"), no_input=True)
+
     # ---- (A2) sign tokens split off `key=-N` / `key=+N` == Model.TokDerived.split_sign d_sign
     splits, seen_s = [], set()
     for p, (eq, sg) in all_splits:
@@ -921,7 +1191,11 @@ def main(tier: str) -> int:
                     other_diagnostic=n_other, still_compiles=n_compiled, in_generated_text=n_generated, by_depth=by_depth, by_layout=by_layout,
                     named_in_brace_layouts_by_construct=by_construct_brace,
                     compared_with_model=len(model_cases)),
-        disagreements_checked=len(bad) + len(pbad) + len(sbad),
+        disagreements_checked=len(bad) + len(pbad) + len(sbad) + len(ebad),
+        bracket_plants=dict(br, by_template=br_by_template, by_inner_layout=br_by_inner, by_token_type=br_by_type, by_depth=br_by_depth),
+        error_msg_calls=dict(recorded=n_err_calls, without_token=n_err_none, distinct_compared_with_model=len(ecases),
+                             about_a_multiline_token=n_err_multiline, sentence_not_found=n_err_unparsed,
+                             token_text_unique_in_file_checked_at_its_text=n_err_unique),
         samples=[dict(program=j["src"][:160], planted=[j["line"], j["col"]]) for j in plant_jobs[:2] + plant_jobs[-2:]],
     ))
     return ck.finish()
